@@ -12,6 +12,10 @@ class AbstractDiscreteTimeOfflineInterpreter(AbstractOfflineInterpreter, Discret
         super(AbstractDiscreteTimeOfflineInterpreter, self).__init__()
         return
 
+    def set_ast(self, ast):
+        super(AbstractDiscreteTimeOfflineInterpreter, self).set_ast(ast)
+        self.check_pastified_bounds()
+
     #input format
     #dataset = {
     #   'time': [0, 1, 2, 3, 4],
